@@ -249,7 +249,7 @@ def apsensing_case(ctx, rng, fault=None):
 
 
 # ------------------------------------------------------------------------------------------------------------- Sensornet
-def sensornet_case(ctx, rng, variant, fault=None, mode="values"):
+def sensornet_case(ctx, rng, variant, fault=None, mode="values", edge=False):
     from dtscalibration.io.sensornet import read_sensornet_files
     r = np.random.default_rng(rng.randrange(2**31))
     double = "double" in variant
@@ -263,6 +263,11 @@ def sensornet_case(ctx, rng, variant, fault=None, mode="values"):
     x = np.round(x0 + dx * np.arange(npts), 3)
     if x[-1] < add_internal + 10:
         x = np.round(x0 + (add_internal + 80 - x0) / npts * np.arange(npts), 3)
+    if edge:
+        # the forward window (internal fibre kept on both sides) reaches exactly the last recorded sample
+        dx, add_internal = 1.0, rng.choice([50.0, 25.0])
+        npts = max(npts, int(2 * add_internal) + 30)
+        x = np.round(-add_internal + dx * np.arange(npts), 3)
     fibre_end = round(float(x[-1]) - (add_internal if rng.random() < 0.7 else rng.uniform(0, add_internal + 1)), 2)
     ncol = 6 if double else 4
     recs = []
@@ -281,6 +286,8 @@ def sensornet_case(ctx, rng, variant, fault=None, mode="values"):
     rng.shuffle(order)
     d = workdir("sn")
     fl = rng.choice([None, None, round(float(x[-1]) - add_internal - rng.uniform(0, 10), 2)]) if double else None
+    if edge and double:
+        fl = float(x[-1]) - add_internal + dx
     case = dict(vendor="sensornet", variant=variant, nfiles=n, npts=npts, fault=fault, creation_order=order, add_internal=add_internal,
                 fiber_length=fl, fibre_end=fibre_end, x0=float(x[0]), dx=float(x[1] - x[0]))
     try:
@@ -474,6 +481,8 @@ def run(ctx):
             sensornet_case(ctx, rng, variant)
         for fault in ("npoints", "npoints", "npoints"):
             sensornet_case(ctx, rng, variant, fault=fault)
+        if "double" in variant:
+            sensornet_case(ctx, rng, variant, edge=True)
     for k in range(reps):
         sensortran_case(ctx, rng, midnight=(k % 4 == 3))
     for fault in ("npoints", "companion", "companion"):
